@@ -144,3 +144,31 @@ Proof.
   split; [vm_compute; reflexivity|]. split; [vm_compute; reflexivity|].
   eexists. split; [vm_compute; reflexivity|]. split; vm_compute; reflexivity.
 Qed.
+
+(** An accepted publish reaches every matching filter log ([accept_reaches_all_reachable],
+    TraceRunAccept.v): a subscribes "t", b subscribes "+", c subscribes "x"; in the reachable
+    state after that, publisher key 3 publishes on "t": the logs of "t" (0) and "+" (1) get the
+    entry, the log of "x" (2) does not. *)
+Definition ax_ops : list (list oracle * rop) :=
+  wx_plain [wx_conn 97; wx_conn 98; wx_conn 99; wx_conn 112;
+            OpPush 0 (PSubscribe 1 [([116], 0)] None); OpData 0;
+            OpPush 1 (PSubscribe 1 [([43], 0)] None); OpData 1;
+            OpPush 2 (PSubscribe 1 [([120], 0)] None); OpData 2].
+Definition ax_pub : publish :=
+  {| p_dup := false; p_qos := 0; p_retain := false; p_topic := [116]; p_pkid := 0; p_payload := [7] |}.
+Definition ax_st' : rstate :=
+  match append_to_commitlog (set_r_oracle (tx_st ax_ops) [OMatches [1; 0]]) 3 ax_pub None with Ok (s, _) => s | _ => dummy_state end.
+Definition ends (st : rstate) : list (option N) :=
+  map (fun i => option_map (fun d => end_of (d_log d)) (nget (r_datalog st) i)) [0; 1; 2].
+
+Example accept_example :
+  exists st0, init tx_cfg = Ok st0 /\ run st0 ax_ops = Ok (tx_st ax_ops) /\
+  append_to_commitlog (set_r_oracle (tx_st ax_ops) [OMatches [1; 0]]) 3 ax_pub None = Ok (ax_st', AppOk) /\
+  dl_findex (r_datalog (tx_st ax_ops)) = [([116], 0); ([43], 1); ([120], 2)] /\
+  ends (tx_st ax_ops) = [Some 0; Some 0; Some 0] /\ ends ax_st' = [Some 1; Some 1; Some 0].
+Proof.
+  assert (E : tx_run ax_ops = Ok (tx_st ax_ops, tx_tr ax_ops)) by (vm_compute; reflexivity).
+  unfold tx_run in E. apply bind_ok in E as (st0 & H0 & E). exists st0. split; [exact H0|].
+  split; [eapply run_d_run; exact E|].
+  split; [vm_compute; reflexivity|]. split; [vm_compute; reflexivity|]. split; vm_compute; reflexivity.
+Qed.
